@@ -364,6 +364,20 @@ func init() {
 		return channels.CommittedReadsResponse{Items: items}
 	}, channels.VerifEncodeCommittedReadsResponse, channels.VerifDecodeCommittedReadsResponse, chKind["kindCommittedReadsResponse"])
 
+	// C27-K1 witnesses (the values of Proof/ClusterCodec_Channels.v and of the scratch test)
+	k1msg := ch.Message{MessageID: 7, FromUID: "u1", ClientMsgNo: "c1", ServerTimestampMS: 1, SyncOnce: true, Payload: []byte("cmd")}
+	codecByName["ch_append_batch"].fixed = map[string]any{
+		"k1_synconce": chVal[ch.AppendBatchRequest]{7, ch.AppendBatchRequest{ChannelID: ch.ChannelID{ID: "g1", Type: 2}, Messages: []ch.Message{k1msg}}},
+	}
+	codecByName["ch_append_response"].fixed = map[string]any{
+		"k1_synconce": chVal[ch.AppendResult]{7, ch.AppendResult{MessageID: 7, MessageSeq: 3, Message: k1msg}},
+	}
+	codecByName["ch_pull_response"].fixed = map[string]any{
+		"k1_record_synconce_routegen": chVal[channeltransport.PullResponse]{7, channeltransport.PullResponse{ChannelKey: "k",
+			Meta:    &ch.Meta{Key: "k", RouteGeneration: 9},
+			Records: []ch.Record{{ID: 1, Index: 1, Epoch: 1, SyncOnce: true, Payload: []byte("x"), SizeBytes: 1}}}},
+	}
+
 	constEmitters = append(constEmitters, func(sb *strings.Builder) {
 		sb.WriteString("(* pkg/cluster/channels *)\n")
 		for _, kv := range channels.VerifCodecConsts() {
